@@ -43,7 +43,12 @@ def sig(fmt, data):
     if fmt in _AT0:
         magic, need = _AT0[fmt]
         if fmt == 'vmdk' and vmdk_text_mode(data):
-            return 'marginal'
+            # a text descriptor can only ever be named through its
+            # createType="..." line (case-insensitive, somewhere in the
+            # text); prose without one carries no vmdk signature at all
+            if b'createtype="' in data.lower():
+                return 'marginal'
+            return 'absent'
         if data[:len(magic)] != magic:
             return 'absent'
         return 'present' if n >= need else 'marginal'
